@@ -70,9 +70,25 @@ func (e *Eng) packResults(c *ssa.CallCommon, rs []*Val) *Val {
 func (e *Eng) execCallWith(fr *Frame, ins ssa.Instruction, c *ssa.CallCommon, fnv *Val, args []*Val, st *State, g string, isDefer bool) *Val {
 	fr.siteIns = ins
 	defer func() { fr.siteIns = nil }()
+	// names a ghost assignment at this site may use besides the function's own variables: the receiver of an
+	// interface call (recv) and, when the receiver was read from a field `x.f`, the object x it belongs to (recvOwner)
+	e.siteExtra = nil
+	if c.IsInvoke() && fnv != nil {
+		e.siteExtra = map[string]*Val{"recv": fnv}
+		if u, ok := c.Value.(*ssa.UnOp); ok {
+			if fa, ok := u.X.(*ssa.FieldAddr); ok {
+				if base, ok := fr.vals[fa.X]; ok {
+					e.siteExtra["recvOwner"] = base
+				}
+			}
+		}
+	}
+	extra := e.siteExtra
 	e.siteSetsWhen(fr, "call", calleeName(c), st, g, nil, true)
 	res := e.execCallInner(fr, ins, c, fnv, args, st, g, isDefer)
+	e.siteExtra = extra
 	e.siteSetsWhen(fr, "call", calleeName(c), st, g, res, false)
+	e.siteExtra = nil
 	e.siteLemmasAfter(fr, "call", calleeName(c), ins.Pos(), st, g, res)
 	return res
 }
@@ -644,6 +660,9 @@ func (e *Eng) siteSetsWhen(fr0 *Frame, kind, name string, st *State, g string, r
 			continue
 		}
 		env := e.siteEnv(fr)
+		for k, v := range e.siteExtra {
+			env.vars[k] = v
+		}
 		if res != nil {
 			env.vars["res"] = res
 			if res.Tup != nil {
